@@ -180,6 +180,16 @@ def run(ctx):
     kres = ctx.impl_par("c06_svdqn.py", [{"seed": ctx.rng.randrange(10 ** 6), "ncases": 120 if quick else 1500, "nsa": 5 if quick else 40, "out": "%s/svdqn_%d.json" % (tmp, i)} for i in range(3)], timeout=900)
     ostats = {"operators": 0, "operator_cases_by_kind": {}, "qr_swap_assertions": 0, "kernel_cases": 0, "state_averaged_runs": 0, "state_averaged_states": 0}
     oexports = []
+    cres = ctx.impl_par("c06_copy.py", [{"seed": ctx.rng.randrange(10 ** 6), "ncases": 60 if quick else 600, "out": "%s/copy_%d.json" % (tmp, i)} for i in range(2)], timeout=900)
+    copy_cases = 0
+    for (rc, r, out) in cres:
+        r = C3.load_result(r)
+        if r is None:
+            crashed.append(out[-800:])
+            continue
+        copy_cases += r["stats"].get("cases", 0)
+        for fl in r["failures"]:
+            fails.setdefault(fl["key"], fl)
     for (rc, r, out) in list(ores) + list(kres):
         r = C3.load_result(r)
         if r is None:
@@ -370,6 +380,6 @@ def run(ctx):
                                    "tree_masks_compared": len(tmcases), "tree_masks_two_site": sum(1 for c in tmcases if c["two"]), "tree_mask_mismatches": len(bad_tmasks),
                                    "operators_checked (dense invariant + Coq checker + product vs dense)": ostats["operators"], "operator_cases_by_kind": ostats["operator_cases_by_kind"],
                                    "qr_swap_assertions_skipped": ostats["qr_swap_assertions"], "operator_and_product_exports_to_coq": len(oexports),
-                                   "multi_component_kernel_cases": ostats["kernel_cases"], "state_averaged_runs": ostats["state_averaged_runs"],
+                                   "copied_basis_models (TI1DModel, non-default sigmaqn)": copy_cases, "multi_component_kernel_cases": ostats["kernel_cases"], "state_averaged_runs": ostats["state_averaged_runs"],
                                    "state_averaged_states": ostats["state_averaged_states"],
                                    "masks_compared": len(mcases), "masks_two_site": sum(1 for c in mcases if c["two"]), "mask_mismatches": len(bad_masks)}}
